@@ -37,8 +37,11 @@ EXTRA = {
         "value row has a non-blank cell) and blockShaped (first cells after the '**' row are neither blank nor "
         "markers); the Python mirrors of these predicates are compared with the Lean ones on every case, including "
         "deliberately ill-formed tables",
-        "read_csv hands parse_blocks the rows line.rstrip('\\n').split(sep) of the stream's lines (observed with the "
-        "same stdlib primitives)",
+        "tables without columns are covered separately (TV.wf0: no columns, no rows): both layouts are the two "
+        "lines '**name[*]' / destinations, because the empty column-name line ends the block for the splitter",
+        "CSV: the model reads the cell rows of the generated stream (one row per line, a line without a separator is "
+        "one cell, optional final newline); read_csv itself reads the joined text, so how read_csv cuts lines into "
+        "cells is inside the comparison",
     ],
     "explanation": "Props/C10.lean: rvariant_layout / tvariant_layout (every row-wise / transposed variant of a "
                    "well-formed table has the layout of the plain row-wise text, up to the flag), closure of the variants "
@@ -46,7 +49,12 @@ EXTRA = {
                    "rowwise_variant_same_table / transposed_variant_same_table (makeTable and makePrecursor, every ext and "
                    "fixer), rewrites_rowwise / rewrites_transposed (composites), termination_independent, classify_pad "
                    "(blanks around a non-marker cell never make it a marker) and blockShaped_* (each rewrite keeps the grid "
-                   "one block), stream_rowwise / stream_transposed (everything together for a row stream). A decided "
+                   "one block), stream_rowwise / stream_transposed (everything together for a row stream); inductive Rewrite + "
+                   "applyAll with applyAll_rvariant / applyAll_tvariant / rewrites_any_rowwise / rewrites_any_transposed "
+                   "(every sequence of rewrites); zero_columns_same_table / rewrites_any_zero_columns (column-less tables); "
+                   "parse_delivers / parse_rewritten_rowwise / parse_rewritten_transposed (parse_blocks on the rewritten "
+                   "stream delivers the plain text's table at the block's origin row, given the rows before it read to the "
+                   "end). A decided "
                    "witness shows the orientation rewrite fails without wfT. Hypotheses: wf / wfT of the table value and "
                    "blockShaped of its two plain layouts (all decidable, all checked per generated case).",
 }
@@ -80,9 +88,11 @@ def block_shaped(grid):
 
 # ---------------------------------------------------------------------------------------------- table values
 
-def gen_tv(rng, native, illformed=None):
+def gen_tv(rng, native, illformed=None, zero_cols=False):
     n_col = rng.choice([1, 1, 2, 3, 4])
     n_row = rng.choice([0, 1, 2, 3, 5])
+    if zero_cols:
+        n_col, n_row = 0, 0
     kinds = [rng.choice(["text", "onoff", "datetime", "num", "num"]) for _ in range(n_col)]
     names = []
     while len(names) < n_col:
@@ -109,6 +119,8 @@ def gen_tv(rng, native, illformed=None):
             break
     dest = rng.choice(["all", "a b", "your_farm my_farm", "x"])
     t = {"name": name, "dest": dest, "cols": cols, "nrows": n_row}
+    if zero_cols:
+        return t
     if illformed == "blank_row" and n_row >= 1:
         i = rng.randrange(n_row)
         for c in t["cols"]:
@@ -134,6 +146,10 @@ def wf(t):
         and len(c["cells"]) == t["nrows"] for c in t["cols"])
 
 
+def wf0(t):
+    return (not t["name"].endswith("*")) and len(t["cols"]) == 0 and t["nrows"] == 0
+
+
 def wf_t(t):
     def cell(c, i):
         return c["cells"][i] if i < len(c["cells"]) else None
@@ -142,6 +158,9 @@ def wf_t(t):
 
 def layout_r(t):
     cols = t["cols"]
+    if not cols:
+        # the column-name line of a column-less table is empty and ends the block: two lines
+        return [["**" + t["name"]], [t["dest"]]]
     rows = [[(c["cells"][i] if i < len(c["cells"]) else None) for c in cols] for i in range(t["nrows"])]
     return [["**" + t["name"]], [t["dest"]], [c["name"] for c in cols], [c["unit"] for c in cols]] + rows
 
@@ -202,6 +221,8 @@ def apply_step(g, st):
     g = [list(r) for r in g]
     k = st["k"]
     if k == "transpose":
+        if len(g) == 2 and g[0] and isinstance(g[0][0], str):
+            return [[g[0][0] + "*"] + g[0][1:], g[1]]
         if len(g) >= 3 and g[0] and isinstance(g[0][0], str):
             body = g[2:]
             n = len(body[0])
@@ -270,8 +291,48 @@ def end_json(end):
 
 # ---------------------------------------------------------------------------------------------- reading
 
+def csv_text(stream, sep):
+    """-> (text, rows): the CSV text of a row stream and the cell rows a CSV reader must hand to the block parser.
+    The rows are derived from the generated stream itself (what was joined), never by splitting the text again:
+    one row per line, a line without a separator is one cell (so a row without cells reads as one empty cell),
+    the final newline is optional, and an empty last line without a final newline is no line at all."""
+    lines = [sep.join(r) for r in stream]
+    text = "\n".join(lines) + "\n"
+    rows = [list(r) if len(r) else [""] for r in stream]
+    # "ending the block by end of input": half of the texts end without a final newline
+    # (deterministic per text, so a case replays exactly)
+    if zlib.crc32(text.encode("utf-8")) % 2 == 0:
+        text = text[:-1]
+        if lines and lines[-1] == "":
+            rows = rows[:-1]
+    return text, rows
+
+
+def impl_read_csv(text, sep):
+    """read_csv itself on the text, canonicalised like blocks_common.impl_parse_blocks"""
+    from pdtable import read_csv
+    from pdtable.table_origin import InputError
+    blocks, ending = [], "exhausted"
+    try:
+        with warnings.catch_warnings():
+            warnings.simplefilter("ignore")
+            for bt, val in read_csv(io.StringIO(text), sep=sep):
+                first = None
+                try:
+                    first = val.metadata.origin.input_location.row
+                except AttributeError:
+                    pass
+                blocks.append({"ty": bt.name, "first": first, "val": bc.canon_block(bt, val, "pdtable")})
+    except InputError as e:
+        ending = {"InputError": getattr(getattr(e.args[0], "load_location", None), "row", None)}
+    except Exception as e:  # noqa: BLE001
+        ending = {"escaped": type(e).__name__}
+    issues = [ending["InputError"]] if isinstance(ending, dict) and "InputError" in ending else []
+    return {"blocks": blocks, "issues": issues, "ending": ending}
+
+
 def read_tables(mode, stream, sep):
-    """-> (seen rows, [(origin row, Table)] | {'exc': cls})"""
+    """-> (rows the block parser must receive, [(origin row, Table)] | {'exc': cls})"""
     from pdtable import read_csv
     from pdtable.io.parsers.blocks import parse_blocks
     from pdtable.table_origin import InputError
@@ -281,12 +342,7 @@ def read_tables(mode, stream, sep):
         with warnings.catch_warnings():
             warnings.simplefilter("ignore")
             if mode == "read_csv":
-                text = "\n".join(sep.join(r) for r in stream) + "\n"
-                # "ending the block by end of input": half of the texts end without a final newline
-                # (deterministic per text, so a case replays exactly)
-                if zlib.crc32(text.encode("utf-8")) % 2 == 0:
-                    text = text[:-1]
-                seen = [line.rstrip("\n").split(sep) for line in io.StringIO(text)]
+                text, seen = csv_text(stream, sep)
                 it = read_csv(io.StringIO(text), sep=sep)
             else:
                 it = parse_blocks(iter([list(r) for r in stream]))
@@ -337,7 +393,8 @@ def one_case(rng, out, seed, idx, ops, pend, model_ok):
     native = mode != "read_csv" and rng.random() < 0.5
     ill = rng.choice(["blank_row", "star_name", "untrimmed", "blank_name", "ragged", "no_cols"]) \
         if rng.random() < 0.08 else None
-    t = gen_tv(rng, native, ill)
+    zero = ill is None and rng.random() < 0.06
+    t = gen_tv(rng, native, ill, zero_cols=zero)
     lay, start, steps = draw_rewrites(rng, t, mode)
     pre, end = ([], {"by": "eof"}) if mode == "make_table" else draw_end(rng, mode)
     sep = None
@@ -357,7 +414,7 @@ def one_case(rng, out, seed, idx, ops, pend, model_ok):
         sep = rng.choice(free)
     case = {"seed": seed, "index": idx, "mode": mode, "sep": sep, "table": tv_json(t), "layout": lay,
             "steps": [step_json(s) for s in steps], "pre": grid_to_json(pre), "end": end_json(end)}
-    is_wf, is_wft = wf(t), wf_t(t)
+    is_wf, is_wft, is_wf0 = wf(t), wf_t(t), wf0(t)
     shaped = block_shaped(g)
     out.count("mode:" + mode)
     out.count("layout:" + lay)
@@ -371,9 +428,12 @@ def one_case(rng, out, seed, idx, ops, pend, model_ok):
         ops.append({"op": "rewrite", "table": case["table"], "layout": start, "steps": case["steps"],
                     "end": case["end"], "pre": case["pre"]})
         pend.append(("rewrite", case, {"grid": grid_to_json(g), "stream": grid_to_json(stream), "wf": is_wf,
-                                       "wfT": is_wft, "block_shaped": shaped, "plain": grid_to_json(plain)}))
+                                       "wf0": is_wf0, "wfT": is_wft, "block_shaped": shaped,
+                                       "plain": grid_to_json(plain)}))
+    if zero:
+        out.count("zero_columns")
 
-    usable = is_wf and is_wft and block_shaped(plain) and block_shaped(layout_t(t))
+    usable = (is_wf or is_wf0) and is_wft and block_shaped(plain) and block_shaped(layout_t(t))
     if not usable:
         out.count("not_wf_both_layouts")
         out.evaluations += 1
@@ -422,7 +482,10 @@ def one_case(rng, out, seed, idx, ops, pend, model_ok):
             ops.append(rc.model_op("make_table", g, "strict"))
             pend.append(("make_table", case, impl))
         else:
-            impl = bc.impl_parse_blocks(seen, to="pdtable")
+            # read_csv on the text vs the model on the rows of the generated stream (not on a re-split of the text):
+            # a change to how read_csv cuts lines into cells shows up here as a mismatch
+            impl = impl_read_csv(csv_text(stream, sep)[0], sep) if mode == "read_csv" else \
+                bc.impl_parse_blocks(seen, to="pdtable")
             ops.append(bc.model_op(seen, to="pdtable"))
             pend.append(("parse_blocks", case, impl))
 
@@ -435,7 +498,7 @@ def kinds_key(steps, lay, end):
 
 def run(tier, seed, model_ok, translator, search=False, _limit=None):
     out = Outcome()
-    out.rule = ("table values well formed in both layouts (1-4 columns of text / onoff / datetime / numeric spellings, "
+    out.rule = ("table values well formed in both layouts (0-4 columns — 6% column-less tables — of text / onoff / datetime / numeric spellings, "
                 "0-5 rows, text or native cells) x layout x random subset of {toTransposed, header blanks, comments, "
                 "trailing cells} in random order with random amounts x termination {eof, blank line, next block} x "
                 "optional preceding block, through make_table / parse_blocks / read_csv (5 separators); 8% deliberately "
@@ -456,12 +519,12 @@ def run(tier, seed, model_ok, translator, search=False, _limit=None):
                 out.mismatch("driver error", case, impl if what == "rewrite" else None, ans)
                 continue
             if what == "rewrite":
-                for k in ("plain", "grid", "stream", "wf", "wfT", "block_shaped"):
+                for k in ("plain", "grid", "stream", "wf", "wf0", "wfT", "block_shaped"):
                     if ans[k] != impl[k]:
                         out.mismatch(f"rewrite functions / predicates: harness vs Lean ({k})", case, impl[k], ans[k])
                         break
                 else:
-                    if ans["wf"] and ans["block_shaped"] and ans["end_ok"] and not ans["delivered"]:
+                    if (ans["wf"] or ans["wf0"]) and ans["block_shaped"] and ans["end_ok"] and not ans["delivered"]:
                         out.mismatch("Lean splitter does not deliver the rewritten grid as one TABLE block", case,
                                      None, ans["delivered"])
                     if not ans["end_ok"]:
@@ -474,7 +537,9 @@ def run(tier, seed, model_ok, translator, search=False, _limit=None):
                     out.mismatch("make_table on the rewritten grid: pdtable vs Lean makeTable", case, impl, ans)
             else:
                 if bc.canon_model(ans) != impl:
-                    out.mismatch("parse_blocks on the rewritten stream: pdtable vs Lean parseBlocks", case, impl,
+                    out.mismatch(("read_csv on the text vs Lean parseBlocks on the generated rows" if case["mode"] ==
+                                  "read_csv" else "parse_blocks on the rewritten stream: pdtable vs Lean parseBlocks"),
+                                 case, impl,
                                  bc.canon_model(ans))
     return out
 
